@@ -288,11 +288,13 @@ func VerifC05Fast() {
 // Little-endian checksum variant, smaller shape.
 func VerifC05LittleEndian() {
 	n := verifChoice("frames", 3)
+	full := verifChoice("full", 2) == 1
 	fault, at := vFaultNone, 0
-	if n > 0 && verifChoice("corrupt", 2) == 1 {
+	// a wrong checksum is only in scope for the full scanner (the fast one assumes valid checksums)
+	if full && n > 0 && verifChoice("corrupt", 2) == 1 {
 		fault, at = vFaultCksum, verifChoice("faultAt", n)
 	}
-	vRun(true, verifChoice("full", 2) == 1, n, 2, fault, at, 0)
+	vRun(true, full, n, 2, fault, at, 0)
 }
 
 // Header handling: a header whose checksum is wrong is "no WAL" (io.EOF), a bad magic is an error.
